@@ -6,7 +6,7 @@
        through the contract checkers of Analysis/Pipeline.v. *)
 From Coq Require Import ZArith List Bool.
 From Bluge Require Import Base.Res Base.Corr Base.UTF8 Gen.ParamsAnalysis
-  Analysis.Pipeline Analysis.Tokenizers Analysis.Filters Analysis.Freq.
+  Analysis.Pipeline Analysis.Tokenizers Analysis.Filters Analysis.Filters2 Analysis.Freq.
 From Bluge Require Export Analysis.ByteNames.
 Import ListNotations.
 Open Scope Z_scope.
@@ -45,6 +45,13 @@ Inductive acase :=
 | CApostrophe (tin tout : tstream)
 | CElision (articles : list (list Z)) (tin tout : tstream)
 | CShingle (mn mx : Z) (oo : bool) (sep fill : list Z) (tin : tstream) (out : option tstream)
+(* further exact models (Filters2.v); clamp = true: the repaired offsets *)
+| CCamel (clamp : bool) (lowers uppers numbers : list Z) (tin tout : tstream)
+| CDict (clamp : bool) (dict : list (list Z)) (min_word min_sub max_sub : Z) (longest : bool)
+        (tin : tstream) (out : option tstream)
+| CBigram (clamp : bool) (unigram : bool) (tin tout : tstream)
+| CWidth (tin : tstream) (out : option tstream)
+| CPossessive (tin tout : tstream)
 (* whole analyzers built only from exact components: letter tokenizer + lowercase (simple.go),
    single token (keyword.go) *)
 | CSimple (letters : list (Z * bool)) (lower : list (Z * Z)) (input : list Z) (out : tstream)
@@ -123,6 +130,13 @@ Definition check (c : acase) : bool :=
   | CApostrophe tin tout => tstream_eqb (apostrophe_filter tin) tout
   | CElision arts tin tout => tstream_eqb (elision_filter (in_set arts) tin) tout
   | CShingle mn mx oo sep fill tin out => res_matches (shingle_filter mn mx oo sep fill tin) out
+  | CCamel clamp lowers uppers numbers tin tout =>
+      tstream_eqb (camel_filter (in_zset lowers) (in_zset uppers) (in_zset numbers) clamp tin) tout
+  | CDict clamp dict mw ms xs longest tin out =>
+      res_matches (dict_filter (in_set dict) mw ms xs longest clamp tin) out
+  | CBigram clamp unigram tin tout => tstream_eqb (bigram_filter unigram clamp tin) tout
+  | CWidth tin out => res_matches (width_filter cjk_kana_norm cjk_combine_voiced cjk_combine_half_voiced tin) out
+  | CPossessive tin tout => tstream_eqb (possessive_filter tin) tout
   | CSimple letters lower input out => res_matches (analyze (simple_analyzer letters lower) input) (Some out)
   | CKeywordAn input out => res_matches (analyze keyword_analyzer input) (Some out)
   | CFreq ts tv start out pos =>
